@@ -20,7 +20,7 @@
   model's state and the monitor's state, preserved by one model step followed by the monitor's
   steps on that step's observations).  The statement as first written is false
   (`judge_sound_statement_false`); the hypotheses of the corrected one (`NoSleep`, `Contract`)
-  are each shown necessary (`judge_needs_*`), and three clauses of the monitor were corrected
+  are each shown necessary (`judge_needs_*`), and four clauses of the monitor were corrected
   (`old_monitor_false_alarm_*`; the third, "the absolute expiry of nng_aio_set_expire is one-shot",
   replaced a clause of the contract: `expire_needs_no_reconfiguration`).
 -/
@@ -32,6 +32,7 @@ import NngModel.Proofs.AioJudgeTrace
 import NngModel.Proofs.AioJudgeSettled
 import NngModel.Proofs.AioJudgeOld
 import NngModel.Proofs.AioJudgeOld2
+import NngModel.Proofs.AioJudgeOld3
 namespace Nng.Props.C02
 open Nng.Aio Nng.AioSpec
 
@@ -406,12 +407,21 @@ theorem judge_needs_aborts_returned_before_free :
     ¬ ContractP Cfg.fixed retAfterFree {} {} (w.take 3) ∧ Contract Cfg.fixed {} {} w ∧
     (judge (traceP Cfg.fixed retAfterFree {} {} w)).isSome = true := by decide
 
-/-- a start refused because of the stop, whose NNG_ESTOPPED callback begins after nng_aio_stop's last
-    look at the task and before its return: the monitor counts it as "running when stop returns" (it
-    accepts the same callback when it begins after the return) -/
-theorem judge_needs_no_callback_in_stop_window :
-    Breaks [.stopCall false, .stopMark, .stopCancel, .stopWait, .subCall .gen false, .prepare, .begin, .pop,
-      .cbRead, .stopRet] 8 := by decide
+/-- NO LONGER a hypothesis (the contract used to demand that no callback begins between nng_aio_stop's last
+    look at the task and its return, because the monitor counted every running callback at that return): a
+    start refused because of the stop, whose NNG_ESTOPPED callback begins in that window — the former witness
+    of `judge_needs_no_callback_in_stop_window` — keeps to the contract, the old monitor
+    (`Nng.AioSpecOld3.judge`, verbatim copy) rejects it, the corrected one accepts it -/
+def stopWindowCallback : List Label :=
+  [.stopCall false, .stopMark, .stopCancel, .stopWait, .subCall .gen false, .prepare, .begin, .pop,
+   .cbRead, .stopRet, .subRet true 0, .cbDone]
+
+theorem stop_window_needs_no_hypothesis :
+    NoSleep stopWindowCallback ∧ Contract Cfg.fixed {} {} stopWindowCallback ∧
+    (run Cfg.fixed {} stopWindowCallback).isSome = true ∧
+    Nng.AioSpecOld3.judge (traceX Cfg.fixed {} {} stopWindowCallback)
+      = some "quiescence: a callback is running when nng_aio_stop returns" ∧
+    judge (traceX Cfg.fixed {} {} stopWindowCallback ++ [.quiet]) = none := by decide
 
 -- the two corrections of the monitor delivered with this proof: executions of the repaired model
 -- that keep to the contract, satisfy the property, were rejected by the monitor as it was
@@ -514,5 +524,38 @@ theorem settled_rejects_lost_timeout :
       = some "timeout: an operation is still pending after its deadline although nothing else can happen" ∧
     judge [.setTimeout (.ms 11), .setExpire 40, .subCall .gen, .tick 20, .subRet 1, .provDone 0 true, .cbBegin 0, .cbEnd,
            .subCall .gen, .subRet 1, .settled, .tick 4, .settled, .tick 4, .settled] = none := by decide
+
+/-- the scenario corpus/C02/stop_races_refused_resubmission.json as an execution of the model (harness trace:
+    `S c stp ; U c sub ; T cb 999 ; U r sub 0 ; T c sub ; T r sub 0 ; T cx ; T cb 999 ; T c sub ; S r stp ; …`):
+    nng_aio_stop is called, sees the task idle and has in fact returned; a start that had been called meanwhile is
+    refused with NNG_ESTOPPED, its callback starts the next operation (refused again), and the return of
+    nng_aio_stop is observed while the second NNG_ESTOPPED callback runs; then nng_aio_free.  The old monitor
+    counted that callback ("quiescence: a callback is running when nng_aio_stop returns"); the stop's guarantee
+    is about the callbacks that began before the stop was called and the operations whose start had returned
+    before it. -/
+def stopRacesRefusedResubmission : List Label :=
+  [.setTimeout (.ms 11), .stopCall false, .subCall .gen false, .stopMark, .stopCancel, .stopWait, .prepare, .begin,
+   .pop, .cbRead, .peek, .subRet true 0, .subCall .gen true, .prepare, .begin, .subRet true 0, .cbDone,
+   .pop, .cbRead, .peek, .subCall .gen true, .stopRet, .prepare, .begin, .subRet true 0, .cbDone,
+   .stopCall true, .pop, .cbRead, .cbDone, .stopMark, .stopCancel, .stopWait, .stopRet, .tick 40]
+
+theorem old_monitor_false_alarm_stop_window :
+    NoSleep stopRacesRefusedResubmission ∧ Contract Cfg.fixed {} {} stopRacesRefusedResubmission ∧
+    (run Cfg.fixed {} stopRacesRefusedResubmission).map (fun s => (s.starts, s.reported, s.result, s.freed, s.busy))
+      = some (3, 3, ESTOPPED, true, 0) ∧
+    Nng.AioSpecOld3.judge (traceX Cfg.fixed {} {} stopRacesRefusedResubmission)
+      = some "quiescence: a callback is running when nng_aio_stop returns" ∧
+    judge (traceS Cfg.fixed {} {} stopRacesRefusedResubmission ++ [.quiet]) = none := by decide
+
+/-- the corrected clause still has teeth: a callback that began BEFORE the stop was called and is running when
+    the stop returns is rejected, and so is the callback of an operation whose start had returned before the stop
+    was called -/
+theorem stop_clause_rejects_old_callbacks :
+    judge [.subCall .gen, .subRet 1, .provDone 0 true, .cbBegin 0, .stopCall, .stopRet]
+      = some "quiescence: a callback is running when nng_aio_stop returns" ∧
+    judge [.subCall .gen, .subRet 1, .stopCall, .cancelRan ESTOPPED true, .cbBegin ESTOPPED, .stopRet]
+      = some "quiescence: a callback is running when nng_aio_stop returns" ∧
+    judge [.subCall .gen, .subRet 1, .stopCall, .cancelRan ESTOPPED true, .cbBegin ESTOPPED, .cbEnd, .stopRet] = none := by
+  decide
 
 end Nng.Props.C02
